@@ -3,6 +3,7 @@ CONSTANTS
   OracleN = 0
   Starts = {"k4", "k5", "k33"}
   GlueK5 = TRUE
+  CrossEdge = TRUE
   Randomised = TRUE
 INIT Init
 NEXT Next
